@@ -111,6 +111,19 @@ def spec_strand(tier, primary="C07"):
         rand_execs=150 if tier == "quick" else 2000, rand_grid=rand, trace_timeout=1500)
 
 
+def spec_pool(tier, primary="C08"):
+    grid = [{"subs": "1", "workers": w, "stop": st} for w in ("1", "2") for st in ("stop", "soft", "hard")]
+    grid += [{"subs": "11", "workers": "1", "stop": st} for st in ("stop", "soft", "hard")]
+    grid += [{"subs": "2", "workers": "2", "stop": "soft"}, {"subs": "11", "workers": "2", "stop": "hard"}]
+    rand = [{"subs": "22", "workers": "2", "stop": st} for st in ("stop", "soft", "hard")] + [{"subs": "21", "workers": "1", "stop": "soft"}]
+    return ConcSpec(
+        name="ThreadPool", scenario="tp", grid=grid,
+        inv_props=dict(OWN_INVS, **dict(RACE_INVS, DropOnlyWhenStopped="C05")), primary=primary,
+        mc_cfgs=[("ThreadPool_MC.cfg", 8, 900, "FairThreadPool: 2 jobs from 1-2 submitters, 1-2 workers, Stop / SoftStop+Stop / HardStop at any moment, then Wait")],
+        paths_cfg=None, dfs_max=1200, preempt=1 if tier == "quick" else 2,
+        rand_execs=150 if tier == "quick" else 2000, rand_grid=rand, trace_timeout=1500)
+
+
 # ------------------------------------------------------------------------------------------------ checks
 
 @check("C01")
@@ -161,10 +174,18 @@ def c07(rep, tier, seed):
                         "strand and the real FairThreadPool underneath are not part of the quick tier"]
 
 
+@check("C08")
+def c08(rep, tier, seed):
+    """FairThreadPool: accepted jobs all run, rejected ones drop, Wait means done (ThreadPool.tla)"""
+    run_conc(rep, spec_pool(tier), tier, seed, {"C08"})
+    rep.assumptions += ["real FairThreadPool on the FIBER mutex / condition variable / thread; lock acquisition order, notify "
+                        "targets and the stop moment are controller choices; SoftStop is followed by Stop in the scenario"]
+
+
 def all_conc_specs(tier):
     """every concurrent specification that carries ownership ghost state and a MemModel instance"""
     return [spec_unique(tier), spec_shared(tier), spec_wait(tier), spec_when(tier, ALL_STRATS + ANY_STRATS, "C09"),
-            spec_strand(tier)]
+            spec_strand(tier), spec_pool(tier)]
 
 
 @check("C03")
@@ -214,6 +235,9 @@ def c05(rep, tier, seed):
     # concurrent part: interleavings of Stop with Submit on the real Strand (Called xor Dropped, Drop only after refusal)
     sp = spec_strand(tier, primary="C05")
     sp.mc_cfgs = []  # the model itself is checked by C07; here the code is validated against it
+    run_conc(rep, sp, tier, seed, {"C05"})
+    sp = spec_pool(tier, primary="C05")
+    sp.mc_cfgs = []
     run_conc(rep, sp, tier, seed, {"C05"})
     rep.assumptions += ["sequential part: instrumented inline executors decide Call/Drop; concurrent part: Strand over the "
                         "harness pool with Stop / HardStop at any point (Strand.tla)"]
